@@ -178,6 +178,30 @@ let run_um (mfast : coq_Z) (kprobe : int) (ops : string list) : string =
     recs := Buffer.contents b :: !recs) ops;
   String.concat "|" (Stdlib.List.rev !recs)
 
+(* hx scripts on the HAND model (VersionModel): count, version, and the iterator version check = "stored version == current" *)
+let run_hx_hand (ops : string list) : string =
+  let m7 = z_of_int 7 in
+  let c = ref VersionModel.vmm_fresh in
+  let saved : coq_Z option ref = ref None in
+  let cv () = zs (get_count (fst !c)) ^ " " ^ zs (VersionModel.vver !c) in
+  let recs = Stdlib.List.map (fun tok ->
+    let args = if String.length tok > 2 then Stdlib.List.map z_of_string (String.split_on_char ',' (String.sub tok 2 (String.length tok - 2))) else [] in
+    let a i = Stdlib.List.nth args i in
+    let len k = match find k (fst (fst !c)) with Some e -> Stdlib.List.length (evals e) | None -> -1 in
+    let ap o = c := VersionModel.vstep1 m7 !c o in
+    match tok.[0] with
+    | 'a' -> ap (OAdd (a 0, z_of_int 0, a 1)); cv ()
+    | 'r' -> let i = int_of_z (a 1) in
+             if len (a 0) < 0 || i >= len (a 0) then "skip" else (ap (ORemove (a 0, nat_of_int i)); cv () ^ " " ^ string_of_int i ^ " true")
+    | 'v' -> if len (a 0) < 0 then "skip" else (ap (ORemoveValues (a 0)); cv ())
+    | 'K' -> if len (a 0) < 0 then "skip" else (ap (ORemoveKey (a 0)); cv ())
+    | 'c' -> ap OClear; cv ()
+    | 'D' -> "0 dead 1"
+    | 'I' -> if len (a 0) < 0 || int_of_z (a 1) >= len (a 0) then "skip" else (saved := Some (VersionModel.vver !c); "it")
+    | 'U' -> (match !saved with None -> "skip" | Some v -> if BinInt.Z.eqb v (VersionModel.vver !c) then "ok" else "throw")
+    | _ -> "?") ops in
+  String.concat "|" recs
+
 let run_ab2 (mfast : coq_Z) (ops : string list) : string =
   let s = ref (ab_null, ab_null) in
   let d1 (a : ab) = repr_str (fst a) ^ ":" ^ String.concat "," (Stdlib.List.map zs (snd a)) in
@@ -204,6 +228,7 @@ let run_ab2 (mfast : coq_Z) (ops : string list) : string =
 let () = iter_lines (fun line ->
   match words line with
   | "ab2" :: m :: ops -> print_endline (run_ab2 (z_of_string m) ops)
+  | "hx" :: ops -> print_endline (run_hx_hand ops)
   | "mm" :: _bucket :: m :: _vt :: _hm :: ops -> print_endline (run_mm (z_of_string m) ops)
   | "um" :: _bucket :: m :: _hm :: k :: ops -> print_endline (run_um (z_of_string m) (int_of_string k) ops)
   | _ -> print_endline "?")
